@@ -327,7 +327,20 @@ def np_stack(it, arrs, axis=0, **k):
     return LArr(out_shape, elem, A._result_kind(ls))
 
 
-@np_fn('concatenate', 'hstack')
+@np_fn('hstack')
+def np_hstack(it, arrs, **k):
+    items = []
+    for a in it.iterate(arrs):
+        a = a if is_arr(a) else to_carr(a)
+        if isinstance(a, CArr) and a.ndim == 0:
+            a = CArr(a.data.reshape(1), a._kind)
+        items.append(a)
+    if any(a.ndim > 1 for a in items):
+        return np_concatenate(it, items, axis=1)
+    return np_concatenate(it, items, axis=0)
+
+
+@np_fn('concatenate')
 def np_concatenate(it, arrs, axis=0, **k):
     arrs = [a if is_arr(a) else to_carr(a) for a in it.iterate(arrs)]
     arrs = [CArr(a.data.reshape(1)) if isinstance(a, CArr) and a.ndim == 0 and False else a for a in arrs]
@@ -363,7 +376,9 @@ def np_vstack(it, arrs, **k):
     arrs = [a if is_arr(a) else to_carr(a) for a in it.iterate(arrs)]
     if all(isinstance(a, CArr) for a in arrs):
         return CArr(np.vstack([a.data for a in arrs]))
-    raise Unsupported('vstack of symbolic arrays')
+    if all(a.ndim == 1 for a in arrs):
+        return np_stack(it, arrs, axis=0)
+    raise Unsupported('vstack of symbolic nd arrays')
 
 
 @np_fn('kron')
@@ -803,6 +818,10 @@ def np_dot(it, a, b, **k):
     b = b if is_arr(b) else (to_carr(b) if isinstance(b, (list, tuple)) else b)
     if V.is_scalar(a) or V.is_scalar(b):
         return elementwise(it.ctx, V.mul, a, b)
+    if isinstance(a, LArr) and a.ndim == 2 and is_arr(b) and b.ndim == 1:
+        return larr_matvec(it, a, b, axis=1)
+    if is_arr(a) and a.ndim == 1 and isinstance(b, LArr) and b.ndim == 2:
+        return larr_matvec(it, b, a, axis=0)
     if isinstance(a, LArr) and isinstance(b, LArr) and a.ndim == 1 and b.ndim == 1:
         sa, sb = A.snapshot(a), A.snapshot(b)
         A.bshape(a.shape, b.shape, it.ctx)
@@ -1811,3 +1830,46 @@ def _diagvec_binop(it, on, a, b):
 
 S.OBJ_BINOP['diagvec'] = _diagvec_binop
 MA.install(S, __import__('sys').modules[__name__])
+
+
+def larr_matvec(it, M, v, axis):
+    """y[i] = sum_t M[i,t] v[t] (axis=1)  or  y[j] = sum_t v[t] M[t,j] (axis=0): a family of Sigma-terms indexed by the free index"""
+    ctx = it.ctx
+    Ms, vs = A.snapshot(to_larr(M)), A.snapshot(to_larr(v))
+    n = Ms.shape[axis]
+    A.bshape((n,), vs.shape, ctx)
+    out_n = Ms.shape[1 - axis]
+    if Ms.kind == 'complex' or vs.kind == 'complex':
+        raise Unsupported('complex symbolic matvec')
+    probe_i, probe_t = z3.Int('i!canon'), z3.Int('t!canon')
+    term_c = V.zreal(V.mul(Ms.at(probe_i, probe_t) if axis == 1 else Ms.at(probe_t, probe_i), vs.at(probe_t)))
+    cache = ctx.__dict__.setdefault('matvec_cache', {})
+    key = term_c.sexpr()
+    if key in cache:
+        F = cache[key]
+    else:
+        F = ctx.fresh_fun('MatVec', z3.IntSort(), z3.IntSort(), z3.RealSort())
+        cache[key] = F
+        i, t = z3.Int(f'i!{next(ctx.fresh_ctr)}'), z3.Int(f't!{next(ctx.fresh_ctr)}')
+        term = V.zreal(V.mul(Ms.at(i, t) if axis == 1 else Ms.at(t, i), vs.at(t)))
+        ctx.hyps.append(z3.ForAll([i], F(i, 0) == 0))
+        ctx.hyps.append(z3.ForAll([i, t], z3.Implies(t >= 0, F(i, t + 1) == F(i, t) + term), patterns=[F(i, t + 1)]))
+    r = LArr((out_n,), lambda idx, F=F, n=n: F(V.zint(idx[0]), V.zint(n)), 'real')
+    r.meta['matvec'] = (F, Ms, vs, axis)
+    return r
+
+
+@np_fn('append')
+def np_append(it, a, v, axis=None):
+    if axis is not None:
+        raise Unsupported('np.append with axis')
+
+    def flat(x):
+        if V.is_scalar(x):
+            return to_carr([x])
+        x = x if is_arr(x) else to_carr(x)
+        return arr_flatten(it, x, True) if x.ndim != 1 else x
+    fa, fv = flat(a), flat(v)
+    if isinstance(fa, CArr) and fa.size == 0:
+        return A.snapshot(fv) if isinstance(fv, LArr) else CArr(fv.data.copy(), fv._kind)
+    return np_concatenate(it, [fa, fv])
